@@ -221,9 +221,13 @@ def check_task_done_pairing(c: Ctx) -> None:
                     continue
                 var = cst.targets[0].id
                 qexpr = U(call.func.value)
-                facts = Facts(lambda a: a in (var, 'from_queue') or a.isidentifier(), rhs_value=lambda v: 'NN' if u.name in U(v) else None, cg=c.cg, unit=cu)
+                facts = Facts(lambda a: a.isidentifier(), rhs_value=lambda v: 'NN' if u.name in U(v) else None, cg=c.cg, unit=cu)
                 for n in gg.nodes_of(cst):
-                    p = q.pair_search(gg, n, lambda x: is_task_done(x, qexpr), facts=facts)
+                    p = None
+                    for env0 in q.envs_at(gg, n, facts):  # what is known when the dequeue is reached (e.g. a flag computed up front)
+                        p = q.pair_search(gg, n, lambda x: is_task_done(x, qexpr), facts=facts, env=env0)
+                        if p is not None:
+                            break
                     if p is None:
                         c.ok(where(cu, cst), f'every exit after a successful `{q.stmt_text(cst, 50)}` passes {qexpr}.task_done()', exits=len(gg.raise_exits) + 1)
                     else:
@@ -235,26 +239,18 @@ def check_task_done_pairing(c: Ctx) -> None:
     'exactly on the paths that dequeued (flag-correlated in step)')
 def c10_5(c: Ctx) -> None:
     check_task_done_pairing(c)
-    # no task_done without a dequeue: in step the call is guarded by a local flag that is True only on the dequeue branch
+    # no task_done without a dequeue: in step, task_done() is reachable only on paths that passed the dequeue
     st = c.unit(SVC, 'EventBus.step')
+    g = c.cfg(st)
+    deq = {id(q.stmt_of(cc)) for cu, cc in c.cg.callers(c.unit(SVC, 'EventBus._get_next_event')) if cu.key == st.key}
+    facts = Facts(lambda a: a.isidentifier(), cg=c.cg, unit=st)
     for call in [n for n in own_nodes(st.node) if isinstance(n, ast.Call) and call_name(n) == 'task_done']:
-        g = c.cfg(st)
-        gi = q.enclosing(call, (ast.If,))
-        flag = gi.test.id if gi is not None and isinstance(gi.test, ast.Name) else None
-        if flag is None:
-            c.fail(st, 'task_done() in step is not guarded by a dequeue flag', 'task_done() for an event that was passed in, not dequeued: ValueError / join() returns early', node=call)
-            continue
-        defs = [n for n in own_nodes(st.node) if isinstance(n, ast.Assign) and U(n.targets[0]) == flag]
-        trues = [n for n in defs if isinstance(n.value, ast.Constant) and n.value.value is True]
-        falses = [n for n in defs if isinstance(n.value, ast.Constant) and n.value.value is False]
-        deq_blocks = [q.block_of(q.stmt_of(cc)) for cu, cc in c.cg.callers(c.unit(SVC, 'EventBus._get_next_event')) if cu.key == st.key]
-        ok_flag = len(defs) == len(trues) + len(falses) and falses and trues and all(any(blk is not None and any(x is t for x in blk) for blk in deq_blocks) for t in trues)
-        facts = Facts(lambda a: a == flag, cg=c.cg, unit=st)
-        bad = [p for n in g.nodes_of(q.stmt_of(call)) if (p := q.guard_search(g, n, flag, facts)) is not None]
-        if ok_flag and not bad:
-            c.ok(where(st, call), f'step calls task_done() only when `{flag}` is set, and `{flag}` is set only next to the dequeue')
+        tgt = g.nodes_of(q.stmt_of(call))
+        p = q.reach_search(g, [(g.entry, {})], lambda n, d: n in tgt, lambda n, d: n.ast is not None and id(n.ast) in deq, facts=facts)
+        if p is None and deq:
+            c.ok(where(st, call), 'step calls task_done() only on paths that dequeued the event')
         else:
-            c.fail(st, 'task_done() in step not correlated with the dequeue', 'task_done() for an event that was passed in, not dequeued: ValueError / join() returns early', node=call, witness=c.path(g.entry, bad[0]) if bad else [])
+            c.fail(st, 'task_done() in step reachable without a dequeue', 'task_done() for an event that was passed in, not dequeued: ValueError / join() returns early', node=call, witness=c.path(g.entry, p) if p else [])
 
 
 @ob('C10.6', 'ESC/MPT', 'process_event reaches event_mark_complete… for its event on cancellation exits too (a child cancelled by its parent\'s timeout while processed inline must '
